@@ -9,8 +9,11 @@ import WK.Spec.C07
   Verdict classes:
     ok
     viol:<op>-differs-from-sequential-log          (the property is false on this history)
-    viol:empty-payload-row-unreadable              (known behaviour of the unchanged code, reproduced by the model)
-    viol:leo-resurrects-after-truncate-below-retained-max   (ditto)
+    viol:empty-payload-row-unreadable              (a defect that was repaired in /repo: an accepted empty-payload
+                                                    row made every read over it fail ErrCorruptState; reported if it returns)
+    viol:leo-resurrects-after-truncate-below-retained-max   (known behaviour of the unchanged code, reproduced by the
+                                                    model: only when impl = model and the case holds a raw TruncateFrom
+                                                    below the durable RetainedMaxSeq left by an earlier prefix trim)
   A caller-contract breach (see Spec) makes the rest of the case unspecified.
 -/
 open WK WK.C07
@@ -194,7 +197,8 @@ structure St where
   u : Univ := {}
   breach : Bool := false      -- rest of the case is unspecified (contract breach, or a known divergence was reported)
   emptyP : List Nat := []     -- channels holding an accepted empty-payload row
-  truncA : List Nat := []     -- channels truncated below RetainedMaxSeq
+  truncA : List Nat := []     -- channels truncated (raw TruncateFrom) below the durable RetainedMaxSeq of an earlier trim
+  truncR : List Nat := []     -- ... and the whole DB was reopened afterwards (recoverLEO ran on that state)
 
 def kindOf (line : String) : String := (fields line).headD "op"
 
@@ -232,12 +236,15 @@ def stepDrv (st : St) (line impl : String) : St × String × String :=
     let addChan (b : Bool) (l : List Nat) : List Nat :=
       match chan with | some c => if b ∧ !l.contains c then c :: l else l | none => l
     let st1 : St := { st with m := m', s := s', u := u', breach := st.breach || brk,
-                              emptyP := addChan emp st.emptyP, truncA := addChan trn st.truncA }
+                              emptyP := addChan emp st.emptyP, truncA := addChan trn st.truncA,
+                              truncR := match cmd with
+                                | .op .reopen => st.truncA.foldl (fun l c => if l.contains c then l else c :: l) st.truncR
+                                | _ => st.truncR }
     if impl = sStr then (st1, mStr, "ok")
     else if st1.breach then (st1, mStr, "ok")
-    else if impl = mStr ∧ onChan st1.emptyP ∧ hasSub impl "err:corruptstate" then
+    else if onChan st1.emptyP ∧ hasSub impl "err:corruptstate" then
       ({ st1 with breach := true }, mStr, "viol:empty-payload-row-unreadable")
-    else if impl = mStr ∧ onChan st1.truncA then
+    else if impl = mStr ∧ onChan st1.truncR then
       ({ st1 with breach := true }, mStr, "viol:leo-resurrects-after-truncate-below-retained-max")
     else
       let k := match cmd with | .dump _ => "dump-" ++ firstDiff impl sStr | .op _ => kindOf line
